@@ -120,7 +120,7 @@ for lang, comp, std in (('c', 'gcc', 'c99'), ('c++', 'g++', 'c++11')):
             k = 'dump/%s/%s/%s' % (lang, bt, be)
             ld = os.path.join(BUILD, 'lib', bt, 'libtfhe')
             exe = os.path.join(W, 'dump-%s-%s-%s' % (lang.replace('+', 'p'), bt, be))
-            r = sh([comp, '-std=' + std, '-x', lang, '-Wall', '-Werror', '-I' + INC, dsrc, '-o', exe, '-L' + ld, '-ltfhe-' + be, '-Wl,-rpath,' + ld] + (['-lstdc++'] if lang == 'c' else []))
+            r = sh([comp, '-std=' + std, '-O1', '-x', lang, '-Wall', '-Werror', '-I' + INC, dsrc, '-o', exe, '-L' + ld, '-ltfhe-' + be, '-Wl,-rpath,' + ld] + (['-lstdc++'] if lang == 'c' else []))
             if r.returncode: viol(k, 'a %s program does not compile/link against this variant: %s' % (std, r.stdout[-600:])); continue
             rr = sh([exe]); case(k)
             if rr.returncode: viol(k, 'dump program failed rc=%d: %s' % (rr.returncode, rr.stdout[-300:])); continue
